@@ -11,6 +11,7 @@ import (
 	"go/token"
 	"path/filepath"
 	"reflect"
+	"regexp"
 	"strings"
 )
 
@@ -36,6 +37,29 @@ type abiBinding struct {
 	Struct    string `json:"struct"`
 	PackTuple string `json:"pack_tuple,omitempty"`
 	DecTuple  string `json:"decode_tuple,omitempty"`
+	// the method body is exactly the transcribed statement sequence (Pack / Unpack + JSON round trip) and nothing else
+	PackPure   bool   `json:"pack_pure"`
+	DecodePure bool   `json:"decode_pure"`
+	PackWhy    string `json:"pack_not_pure,omitempty"`
+	DecodeWhy  string `json:"decode_not_pure,omitempty"`
+}
+
+// bodyIsExactly compares the printed statements of a method body with the transcribed shape (regular expressions, one per
+// statement); it returns "" or a description of the first deviation
+func bodyIsExactly(fset *token.FileSet, fd *ast.FuncDecl, pats []string) string {
+	stmts := stmtTexts(fset, fd.Body.List)
+	for i, st := range stmts {
+		if i >= len(pats) {
+			return fmt.Sprintf("additional statement %d: `%s`", i+1, st)
+		}
+		if !regexp.MustCompile("^" + pats[i] + "$").MatchString(st) {
+			return fmt.Sprintf("statement %d is `%s`, the transcribed shape is `%s`", i+1, st, pats[i])
+		}
+	}
+	if len(stmts) < len(pats) {
+		return fmt.Sprintf("only %d statements, the transcribed shape has %d", len(stmts), len(pats))
+	}
+	return ""
 }
 
 // ABI element types the Lean model of Pack / Unpack understands
@@ -231,12 +255,30 @@ func extractBindings(fset *token.FileSet, files map[string]*ast.File, tuples map
 				}
 				return false
 			}
+			recvName := "_"
+			if len(fd.Recv.List[0].Names) == 1 {
+				recvName = fd.Recv.List[0].Names[0].Name
+			}
 			if fd.Name.Name == "ABIPack" {
 				if !has("Pack") {
 					return nil, fmt.Errorf("%s: %s.ABIPack does not call Arguments.Pack", posOf(fset, fd), recv)
 				}
 				b.PackTuple = used[0]
+				b.PackWhy = bodyIsExactly(fset, fd, []string{
+					identRe + `, err := abi\.Arguments\{\{Type: ` + used[0] + `\}\}\.Pack\(` + recvName + `\)`,
+					`if err != nil \{ return nil, err \}`,
+					`return ` + identRe + `, nil`,
+				})
+				b.PackPure = b.PackWhy == ""
 			} else {
+				b.DecodeWhy = bodyIsExactly(fset, fd, []string{
+					identRe + `, err := abi\.Arguments\{\{Type: ` + used[0] + `\}\}\.Unpack\(bz\)`,
+					`if err != nil \{ return err \}`,
+					identRe + `, err := json\.Marshal\(` + identRe + `\[0\]\)`,
+					`if err != nil \{ return err \}`,
+					`return json\.Unmarshal\(` + identRe + `, &` + recvName + `\)`,
+				})
+				b.DecodePure = b.DecodeWhy == ""
 				// the decode path the model transcribes: Unpack, json.Marshal, json.Unmarshal
 				if !has("Unpack") || !has("Marshal") || !has("Unmarshal") {
 					return nil, fmt.Errorf("%s: %s.ABIDecode is no longer Unpack + JSON round trip; the model of the decoder must be revised", posOf(fset, fd), recv)
@@ -388,7 +430,12 @@ func runAbiTuples(ctx *Ctx) error {
 		}
 		used[pt] = true
 		tid, _ := leanIdent(pt)
-		rows = append(rows, fmt.Sprintf("  { name := %q, layout := %s, schema := %sSchema, hasPack := %v, hasDecode := %v }", sn, tid, id, b.PackTuple != "", b.DecTuple != ""))
+		why := ""
+		if w := strings.TrimSpace(b.PackWhy + " " + b.DecodeWhy); w != "" {
+			why = " /- " + strings.ReplaceAll(w, "-/", "- /") + " -/"
+		}
+		rows = append(rows, fmt.Sprintf("  { name := %q, layout := %s, schema := %sSchema, hasPack := %v, hasDecode := %v, packPure := %v, decodePure := %v }%s",
+			sn, tid, id, b.PackTuple != "", b.DecTuple != "", b.PackPure || b.PackTuple == "", b.DecodePure || b.DecTuple == "", why))
 	}
 	fmt.Fprintf(&sb, "/-- struct ↔ tuple bindings (methods ABIPack / ABIDecode of packet.go) -/\ndef bindings : List Binding := [\n%s]\n\nend TM.Generated.AbiTuples\n", strings.Join(rows, ",\n"))
 	var unused []string
